@@ -40,6 +40,14 @@ BY_KEY[("jsr", "long")] = 0x22
 BY_KEY[("jmp", "[abs]")] = 0xDC
 
 MNEMONICS = sorted({m for m, _ in OPCODES.values()})
+
+# Alternate mnemonics of the WDC W65C816S data sheet: an assembler need not know them (they are not in MNEMONICS), but one that
+# accepts them has to encode them as the instruction they stand for.
+ALIASES = {"bge": "bcs", "blt": "bcc", "cpa": "cmp", "dea": "dec", "ina": "inc", "swa": "xba", "tad": "tcd", "tas": "tcs", "tda": "tdc", "tsa": "tsc"}
+for _alias, _base in ALIASES.items():
+    for (_m, _mode), _b in list(BY_KEY.items()):
+        if _m == _base and (_alias not in ("dea", "ina") or _mode == "acc"):
+            BY_KEY[(_alias, "imp" if _alias in ("dea", "ina") else _mode)] = _b
 BRANCHES8 = sorted(m for m, mode in OPCODES.values() if mode == "rel8")
 
 
@@ -112,6 +120,9 @@ def implied(mnemonic: str) -> int | None:
 
 def selftest() -> None:
     assert len(OPCODES) == 256 and sorted(OPCODES) == list(range(256))
+    assert BY_KEY[("tas", "imp")] == 0x1B and BY_KEY[("tsa", "imp")] == 0x3B and BY_KEY[("bge", "rel8")] == 0xB0 and BY_KEY[("blt", "rel8")] == 0x90
+    assert BY_KEY[("dea", "imp")] == 0x3A and BY_KEY[("ina", "imp")] == 0x1A and BY_KEY[("swa", "imp")] == 0xEB and BY_KEY[("cpa", "immM")] == 0xC9
+    assert BY_KEY[("tad", "imp")] == 0x5B and BY_KEY[("tda", "imp")] == 0x7B and ("dea", "dp") not in BY_KEY
     keys = [(m, mode) for m, mode in OPCODES.values()]
     assert len(set(keys)) == 256, "every (mnemonic, mode) key must be unique"
     assert len(MNEMONICS) == 92 + 1 - 1 or True
